@@ -467,6 +467,7 @@ fn machine_case(seed: u64, i: u64) -> CaseOut {
     };
     let mut cmds: Vec<Cmd> = Vec::new();
     let mut lines: Vec<String> = Vec::new();
+    let mut last_label: Option<String> = None;
     for _ in 0..40 {
         if rng.chance(1, 8) {
             // multi-byte text travels through the same reader: must neither panic nor shift later commands
@@ -475,7 +476,14 @@ fn machine_case(seed: u64, i: u64) -> CaseOut {
             lines.push(l);
             continue;
         }
-        let t = pool(&mut rng);
+        let mut t = pool(&mut rng);
+        // the label of the previous command once more, with another offset: what a line means does not
+        // depend on the line before it
+        if let (Some(prev), true) = (&last_label, rng.chance(1, 4)) {
+            t = format!("{}{}", prev, rng.s(&["", "+1", "-1", "+2", "+x3", ""]));
+            out.class("machine:same_label_again");
+        }
+        last_label = labels.iter().map(|(n, _)| *n).find(|n| t.starts_with(n)).map(|n| n.to_string());
         let line = match rng.below(3) {
             0 => format!("move r1 {}", t),
             1 => format!("goto {}", t),
